@@ -55,7 +55,7 @@ pub(super) fn finalize_untyped_function(
         parent.next_call_site_slot = func_compiler.next_call_site_slot;
     }
 
-    let const_idx = parent.current.add_constant_function(compiled_func);
+    let const_idx = parent.add_function_constant(compiled_func, upvalue_count > 0, func_span)?;
 
     if upvalue_count > 0 {
         parent.emit_a(
